@@ -82,6 +82,7 @@ def consts(cfg, which, tracefile=None):
     d["NomStep"] = str(cfg.get("nomStep", 1))
     d["Miss"] = "{" + ", ".join(q(x) for x in cfg.get("miss", [])) + "}"
     d["Lite"] = "[A |-> %s, B |-> %s]" % tuple("TRUE" if cfg["lite"][a] else "FALSE" for a in "AB")
+    d["RFilter"] = "[A |-> {%s}, B |-> {%s}]" % tuple(", ".join(map(q, cfg.get("rfilter", {}).get(a, []))) for a in "AB")
     d["CheckPrio"] = "[A |-> %s, B |-> %s]" % tuple("TRUE" if cfg["checkPrio"][a] else "FALSE" for a in "AB")
     if which == "mc":
         m = cfg["mc"]
@@ -165,7 +166,7 @@ def gen_mon(workdir, name, cfg, tracefile, predicates):
          "NatMap": c["NatMap"], "Reach": c["Reach"],
          "LocA": "{" + ", ".join(map(q, cfg["loc"]["A"] + [cfg["nat"][l] for l in cfg["loc"]["A"] if l in cfg["nat"]])) + "}",
          "LocB": "{" + ", ".join(map(q, cfg["loc"]["B"])) + "}",
-         "Lite": c["Lite"], "CheckPrio": c["CheckPrio"], "MaxReq": str(cfg["maxReq"]),
+         "Lite": c["Lite"], "RFilter": c["RFilter"], "CheckPrio": c["CheckPrio"], "MaxReq": str(cfg["maxReq"]),
          "Check": "{" + ", ".join(map(q, predicates)) + "}"}
     lines = ["SPECIFICATION Spec", "INVARIANT Report", "POSTCONDITION Done", "CHECK_DEADLOCK FALSE"]
     mod = "MON_" + name
